@@ -47,6 +47,17 @@ RECURSIVE ItemLenOffsets(_, _)
 ItemLenOffsets(b, at) == IF at + 3 > Len(b) THEN {} ELSE {at + 2} \cup ItemLenOffsets(b, at + 4 + Rd16(b, at + 2))
 SetLen16(b, at, n) == SubSeq(b, 1, at - 1) \o U16(n) \o SubSeq(b, at + 2, Len(b))
 
+\* positions (1-based) of the item-type bytes of an A-ASSOCIATE-RQ/AC: the top-level variable items, the sub-items of the
+\* user information item (0x50) and those of the presentation context items (0x20 / 0x21)
+RECURSIVE SubOffsets(_, _, _)
+SubOffsets(b, at, end) == IF at + 3 > end \/ at + 3 > Len(b) THEN {} ELSE {at} \cup SubOffsets(b, at + 4 + Rd16(b, at + 2), end)
+TopOffsets(b) == {o - 2 : o \in ItemLenOffsets(b, 75)}
+TypeOffsets(b) == TopOffsets(b)
+                  \cup UNION {IF b[o] = 80 THEN SubOffsets(b, o + 4, o + 3 + Rd16(b, o + 2))
+                              ELSE IF b[o] \in {32, 33} THEN SubOffsets(b, o + 8, o + 3 + Rd16(b, o + 2)) ELSE {} : o \in TopOffsets(b)}
+\* the item types PS3.8 / PS3.7 define (0x10 0x20 0x21 0x30 0x40 0x50 .. 0x59)
+ItemTypes == {16, 32, 33, 48, 64} \cup (80..89)
+
 Mut(op, b) == [op |-> op, bytes |-> b]
 Mutants(b) ==
   {Mut("trunc", SubSeq(b, 1, k)) : k \in 0..(Len(b) - 1)}
@@ -58,6 +69,8 @@ Mutants(b) ==
   \cup (IF b[1] \in {1, 2} /\ Len(b) > 74
         THEN {Mut("itemlen", SetLen16(b, at, n)) : at \in ItemLenOffsets(b, 75), n \in {0, 1, 65535}}
              \cup {Mut("itemlen", SetLen16(b, at, Rd16(b, at) + d)) : at \in ItemLenOffsets(b, 75), d \in {-1, 1}}
+             \* item type confusion: a well-formed item carrying the type of another kind of item
+             \cup UNION {{Mut("itemtype", Subst(b, o, t)) : t \in ItemTypes \ {b[o]}} : o \in TypeOffsets(b)}
         ELSE {})
 Variants(b) == {[op |-> "variant", bytes |-> Variant(b, x, pv), rsv |-> x, pv |-> pv] : x \in {0, 255, 1}, pv \in (IF b[1] \in {1, 2} THEN {1, 3, 65535, 32769} ELSE {1})}
 
